@@ -39,6 +39,8 @@ type ContentPlan struct {
 	MinTraces int `json:"min_traces,omitempty"`
 	MinTx     int `json:"min_tx,omitempty"`
 	MinLogs   int `json:"min_logs,omitempty"`
+	// MarkStrings: string values emitted in logs carry the C15 marker
+	MarkStrings bool `json:"mark_strings,omitempty"`
 	// PoolTxPct: percent of transactions whose from/to come from the address pool
 	PoolTxPct int `json:"pool_tx_pct,omitempty"`
 	// Seeded: blocks 1..UpTo each carry one log of Event per pool address
@@ -83,6 +85,10 @@ type Plan struct {
 	SharedPool bool `json:"shared_pool,omitempty"`
 	// Checks selects oracle families beyond the always-on ones.
 	Checks map[string]bool `json:"checks,omitempty"`
+	// C15: configuration-injection case.
+	C15       *C15Case        `json:"c15,omitempty"`
+	RawConfig json.RawMessage `json:"raw_config,omitempty"`
+	C15Submit json.RawMessage `json:"c15_submit,omitempty"`
 	// C20: manager case.
 	C20 *C20Case `json:"c20,omitempty"`
 	// C08: client-level case (cache transparency).
@@ -160,6 +166,7 @@ type ScriptedChain struct {
 	// AtPos: fire once, when some pair of Src first records a position >= AtPos
 	// (robust under faults, unlike counting successful calls).
 	AtPos  int64  `json:"at_pos"`
+	Pair   string `json:"pair,omitempty"` // only this pair\'s positions count ("src/ig")
 	Src    string `json:"src"`
 	Action string `json:"action"` // grow | reorg
 	N      int    `json:"n,omitempty"`
